@@ -10,7 +10,7 @@
    compartment attribute, the edge exists, setCompartment/addNode are used on a node without a
    compartment as their docstrings say). *)
 From Coq Require Import List ZArith Bool Arith QArith.
-From EpyV Require Import Model.Loci Proofs.LociBase Proofs.LociLocus Proofs.LociInv.
+From EpyV Require Import Model.Loci Proofs.LociBase Proofs.LociLocus Proofs.LociInv Proofs.LociRaise.
 Import ListNotations.
 Close Scope Q_scope.
 
@@ -41,6 +41,19 @@ Theorem C01_inv_every_point : forall tbl, wf_loci tbl = true -> single_orientati
 Proof.
   intros tbl Hwf Hs nodes edges init ops k Hg Hi Hv. apply C01_inv_history; try assumption.
   rewrite <- (firstn_skipn k ops), validb_app in Hv. apply andb_true_iff in Hv. exact (proj1 Hv).
+Qed.
+
+(* calls that raise an exception (unknown node, missing edge, ...) may be interleaved anywhere: they
+   leave the invariant intact.  [okb]: the call satisfies its precondition or does not complete *)
+Theorem C01_inv_history_with_raising_calls : forall tbl, wf_loci tbl = true -> single_orientation tbl = true ->
+  forall nodes edges init ops, graph_okb nodes edges = true ->
+  forallb (fun nc => zmem (fst nc) nodes) init = true ->
+  admissibleb tbl (setup tbl nodes edges init) ops = true ->
+  Inv tbl (fold_left (step tbl) ops (setup tbl nodes edges init)).
+Proof.
+  intros tbl Hwf Hs nodes edges init ops Hg Hi Hv. apply WInv_Inv; [exact Hs|].
+  apply winv_admissible; [exact Hwf | | exact Hv].
+  apply Inv_WInv. apply (C01_inv_history tbl Hwf Hs nodes edges init [] Hg Hi). reflexivity.
 Qed.
 
 (* the per-element event rate is the probability times the true number of eligible elements *)
